@@ -22,9 +22,6 @@ THEOREMS = [
     "C16.schemas_describe_models",
     "C16.bulk_closed",
     "C16.bulk_key_not_closed",
-    "C16.bulk_params_declared",
-    "C16.bulk_ops_exact_single",
-    "C16.bulk_roundtrip_single",
     "C16.bulk_appended_batch_lost",
     "C16.body_key_is_name",
     "C16.gen_routes_undocumented_column_raises",
